@@ -24,7 +24,7 @@ def kind_of(dbg):
     return out
 
 
-def raised_events(resp):
+def raised_events(resp, gas_limit=30_000_000):
     mon = resp["mon"]
     ev = set()
     for ip, err, recorded in mon["op_errors"]:
@@ -33,6 +33,10 @@ def raised_events(resp):
         ev.add((ip, kind_of(err)))
     for ip in mon["oog_at"]:
         ev.add((ip, "GasLimitExceeded"))
+    # observed state rather than the VM's own decision: a thread retired with more gas consumed than the limit
+    for ip, gas in mon.get("retire_gas", []):
+        if gas > gas_limit:
+            ev.add((ip, "GasLimitExceeded"))
     return ev
 
 
@@ -56,7 +60,8 @@ def judge(res, code, feats, cfg, strict, perm):
     if complete and not low_gas:
         predicted = {p.error for p in paths if p.error}
     res.judged += 1
-    ev_s, ev_p = raised_events(strict), raised_events(perm)
+    gl = cfg.get("gas", 30_000_000)
+    ev_s, ev_p = raised_events(strict, gl), raised_events(perm, gl)
     ret_s, errs_s = returned(strict)
     ret_p, errs_p = returned(perm)
     kinds_seen = {k for _, k in ev_s | predicted}
